@@ -219,16 +219,19 @@ def handleKill (fs : List (String × String)) : Option String := do
 
 /-! apply hand-over -/
 open Mpire.Handover in
-/-- `handover phase=<queued|pill|task|announced>`: the worker is killed in that phase, the death is handled, the
-replacement reads on → what happens to the job -/
+/-- `handover phase=<queued|pill|task|init|announced|resultsent>`: the worker is killed in that phase, the death is
+handled, the replacement reads on → what happens to the job, whether the queue can still be joined, whether the pool is flagged -/
 def handleHandover (fs : List (String × String)) : Option String := do
-  let pre ← match (← get fs "phase") with
-    | "queued" => some ([] : List Ev) | "pill" => some [.takePill] | "task" => some [.takePill, .takeTask]
-    | "announced" => some [.takePill, .takeTask, .announce] | _ => none
-  let s ← run {} (pre ++ [.kill, .deathHandled])
+  let (s0, pre) ← match (← get fs "phase") with
+    | "queued" => some (({} : St), ([] : List Ev)) | "pill" => some ({}, [.takePill]) | "task" => some ({}, [.takePill, .ackPill, .takeTask])
+    | "init" => some ({ hasInit := true }, [.takePill, .ackPill, .takeTask, .startInit])
+    | "announced" => some ({}, [.takePill, .ackPill, .takeTask, .announce])
+    | "resultsent" => some ({}, [.takePill, .ackPill, .takeTask, .announce, .sendResult]) | _ => none
+  let s ← run s0 (pre ++ [.kill, .deathHandled])
   let s := match step s .replacementTakes with | some s' => s' | none => s
-  some (match s.w with
+  let job := match s.w with
     | .done false => "failed-with-death-error" | .done true => "done" | .lost => "lost" | .ranAsChunk => "ran-as-chunk"
-    | _ => "still-pending")
+    | _ => "still-pending"
+  some s!"{job} joinable={if joinable s then 1 else 0} poolfailed={if s.poolFailed then 1 else 0}"
 
 end Mpire.Drive
